@@ -7,6 +7,7 @@
 -/
 import Cvss.Py
 import Cvss.Gen.Code2
+import Cvss.Model.Json
 import Cvss.Model.V2
 namespace Cvss.Props.CodeTie2
 open Cvss Cvss.Gen
@@ -676,5 +677,236 @@ theorem environmental_vector_eq (self : Code2.Self) (o : Model.V2.Obj) (h : o.me
     Code2.environmental_vector self = .ok o.environmentalVector := by
   unfold Code2.environmental_vector Model.V2.Obj.environmentalVector
   simp [h, Model.V2.ND, pure, Except.pure]
+
+
+/-- the model's JSON values inside the translation's (which also has `null`) -/
+def jOf : Model.JVal → Py.J
+  | .str s => .str s
+  | .num x => .num x
+
+namespace Aux
+
+/-- the model's JSON object seen as the translation's dict -/
+def jm (l : Model.JObj) : List (Str × Py.J) := l.map (fun kv => (kv.1, jOf kv.2))
+
+theorem insert_jm (k : Str) (v : Model.JVal) (l : Model.JObj) :
+    insert k (jOf v) (jm l) = jm (insert k v l) := by
+  induction l with
+  | nil => rfl
+  | cons p l ih =>
+    obtain ⟨a, b⟩ := p
+    by_cases hk : k = a
+    · simp [insert, jm, hk]
+    · have ih' : insert k (jOf v) (List.map (fun kv => (kv.1, jOf kv.2)) l) =
+          List.map (fun kv => (kv.1, jOf kv.2)) (insert k v l) := ih
+      simp [insert, jm, hk, ih']
+
+theorem strLt_eq (a b : Str) : Py.strLt a b = Model.strLt a b := by
+  induction a generalizing b with
+  | nil => cases b <;> rfl
+  | cons x xs ih =>
+    cases b with
+    | nil => rfl
+    | cons y ys => simp only [Py.strLt, Model.strLt, ih]
+
+theorem insertSorted_jm (kv : Str × Model.JVal) (l : Model.JObj) :
+    Py.insertSorted (kv.1, jOf kv.2) (jm l) = jm (Model.insertSorted kv l) := by
+  induction l with
+  | nil => rfl
+  | cons p l ih =>
+    have ih' : Py.insertSorted (kv.1, jOf kv.2) (List.map (fun kv => (kv.1, jOf kv.2)) l) =
+        List.map (fun kv => (kv.1, jOf kv.2)) (Model.insertSorted kv l) := ih
+    by_cases h : Model.strLt kv.1 p.1 = true
+    · simp [Py.insertSorted, Model.insertSorted, jm, strLt_eq, h]
+    · simp [Py.insertSorted, Model.insertSorted, jm, strLt_eq, h, ih']
+
+theorem foldl_sorted_jm (l acc : Model.JObj) :
+    List.foldl (fun acc kv => Py.insertSorted kv acc) (jm acc) (jm l) =
+      jm (List.foldl (fun acc kv => Model.insertSorted kv acc) acc l) := by
+  induction l generalizing acc with
+  | nil => rfl
+  | cons p l ih =>
+    have : jm (p :: l) = (p.1, jOf p.2) :: jm l := rfl
+    rw [this, List.foldl_cons, List.foldl_cons, insertSorted_jm, ih]
+
+theorem sortedItems_jm (l : Model.JObj) : Py.sortedItems (jm l) = jm (Model.sortObj l) :=
+  foldl_sorted_jm l []
+
+/-- the loop body of `as_json` (the same in the three loops) -/
+def jsonBody (self : Code2.Self) : List (Str × Py.J) → Str → Py.M (List (Str × Py.J)) :=
+  fun (st : (List (Str × Py.J))) (metric : Str) => (do
+    let data := st
+    let us : Str → Py.M Str := fun text => (do
+        pure (replaceChar ' ' '_' (replaceChar '-' '_' (Py.upper text))))
+    let add_metric_to_data : List (Str × Py.J) → Str → Py.M (List (Str × Py.J)) := fun data metric => (do
+        let t2 ← Py.getitem metric Gen.V2.jsonKeys
+        let k : Str := t2
+        let t3 ← Code2.get_value_description self metric
+        let t4 ← us t3
+        let data : List (Str × Py.J) := Py.setitem k (Py.J.str t4) data
+        pure data)
+    let data ← add_metric_to_data data metric
+    pure data)
+
+theorem json_fold (self : Code2.Self) (l : List Str) (d : Model.JObj) :
+    (List.foldlM (jsonBody self) (jm d) l).toOption =
+      (Model.addMetrics Gen.V2.jsonKeys (Model.V2.getDescription self.metrics) Model.us2 d l).map jm := by
+  induction l generalizing d with
+  | nil => rfl
+  | cons m l ih =>
+    rw [List.foldlM_cons, to_bind]
+    unfold Model.addMetrics
+    have hstep : (jsonBody self (jm d) m).toOption =
+        (lookup m Gen.V2.jsonKeys).bind fun k =>
+          (Model.V2.getDescription self.metrics m).bind fun ds =>
+            some (jm (insert k (.str (Model.us2 ds)) d)) := by
+      unfold jsonBody
+      simp only [to_bind, to_pure, to_getitem, get_value_description_eq, Py.setitem]
+      cases lookup m Gen.V2.jsonKeys with
+      | none => rfl
+      | some k =>
+        cases Model.V2.getDescription self.metrics m with
+        | none => rfl
+        | some ds =>
+          simp only [Option.bind_some]
+          rw [← insert_jm]
+          rfl
+    rw [hstep]
+    cases lookup m Gen.V2.jsonKeys with
+    | none => rfl
+    | some k =>
+      cases Model.V2.getDescription self.metrics m with
+      | none => rfl
+      | some ds =>
+        simp only [Option.bind_some]
+        exact ih _
+
+theorem score_eq (t : Option Rat) :
+    ((if (t ≠ none ∧ t ≠ some 0) then (do
+          let v8 ← Py.req t
+          pure v8) else (do
+          pure (mkRat (0) 1))) : Py.M Rat) =
+      .ok (if Model.truthy t = true then t.getD 0 else 0) := by
+  cases t with
+  | none => simp [Model.truthy, pure, Except.pure]
+  | some x =>
+    by_cases hx : x = 0
+    · simp [Model.truthy, hx, pure, Except.pure]
+    · simp [Model.truthy, hx, Py.req]
+
+theorem as_json_unf (self : Code2.Self) (sort minimal : Bool) :
+    Code2.as_json self sort minimal =
+      (Py.req self.base_score >>= fun v1 =>
+        List.foldlM (jsonBody self)
+          ([(c!"version", (Py.J.str c!"2.0")), (c!"vectorString", (Py.J.str self.vector)),
+            (c!"baseScore", (Py.J.num v1))] : List (Str × Py.J)) Gen.V2.mandatory >>= fun data =>
+        (if ((¬ (minimal = true)) ∨ (¬ (self.temporal_score = none))) then
+          (List.foldlM (jsonBody self) data Gen.V2.temporal >>= fun data =>
+            (if (self.temporal_score ≠ none ∧ self.temporal_score ≠ some 0) then (do
+              let v8 ← Py.req self.temporal_score
+              pure v8) else (do
+              pure (mkRat (0) 1))) >>= fun t9 =>
+            pure (Py.setitem c!"temporalScore" (Py.J.num t9) data))
+         else pure data) >>= fun data =>
+        (if ((¬ (minimal = true)) ∨ (¬ (self.environmental_score = none))) then
+          (List.foldlM (jsonBody self) data Gen.V2.environmental >>= fun data =>
+            (if (self.environmental_score ≠ none ∧ self.environmental_score ≠ some 0) then (do
+              let v13 ← Py.req self.environmental_score
+              pure v13) else (do
+              pure (mkRat (0) 1))) >>= fun t14 =>
+            pure (Py.setitem c!"environmentalScore" (Py.J.num t14) data))
+         else pure data) >>= fun data =>
+        (if (sort = true) then pure (Py.sortedItems data) else pure data)) := rfl
+
+def blk (m : List (Str × Str)) (minimal : Bool) (t : Option Rat) (g : List Str) (key : Str)
+    (d : Model.JObj) : Option Model.JObj :=
+  if (!minimal || t.isSome) = true then
+    (Model.addMetrics Gen.V2.jsonKeys (Model.V2.getDescription m) Model.us2 d g).bind fun d' =>
+      some (insert key (.num (if Model.truthy t = true then t.getD 0 else 0)) d')
+  else some d
+
+/-- one optional block (temporal / environmental) -/
+theorem block_eq (self : Code2.Self) (minimal : Bool) (t : Option Rat) (g : List Str) (key : Str)
+    (d : Model.JObj) :
+    ((if ((¬ (minimal = true)) ∨ (¬ (t = none))) then
+          (List.foldlM (jsonBody self) (jm d) g >>= fun data =>
+            (if (t ≠ none ∧ t ≠ some 0) then (do
+              let v8 ← Py.req t
+              pure v8) else (do
+              pure (mkRat (0) 1))) >>= fun t9 =>
+            pure (Py.setitem key (Py.J.num t9) data))
+         else pure (jm d)) : Py.M (List (Str × Py.J))).toOption =
+      (blk self.metrics minimal t g key d).map jm := by
+  unfold blk
+  have hc : ((¬ (minimal = true)) ∨ (¬ (t = none))) ↔ (!minimal || t.isSome) = true := by
+    cases minimal <;> cases t <;> simp
+  by_cases h : (!minimal || t.isSome) = true
+  · rw [if_pos (hc.2 h), if_pos h, to_bind, json_fold, score_eq]
+    cases Model.addMetrics Gen.V2.jsonKeys (Model.V2.getDescription self.metrics) Model.us2 d g with
+    | none => rfl
+    | some d' =>
+      simp only [Option.map_some, Option.bind_some, Py.setitem]
+      rw [← insert_jm]
+      rfl
+  · rw [if_neg (fun hh => h (hc.1 hh)), if_neg h]
+    rfl
+
+theorem asJson2_alt (o : Model.V2.Obj) (sort minimal : Bool) :
+    Model.asJson2 o sort minimal =
+      (Model.addMetrics Gen.V2.jsonKeys (Model.V2.getDescription o.metrics) Model.us2
+        [(c!"version", .str c!"2.0"), (c!"vectorString", .str o.vector), (c!"baseScore", .num o.base)]
+        Gen.V2.mandatory).bind fun d1 =>
+      (blk o.metrics minimal o.temporal Gen.V2.temporal c!"temporalScore" d1).bind fun d2 =>
+      (blk o.metrics minimal o.env Gen.V2.environmental c!"environmentalScore" d2).bind fun d3 =>
+      some (if sort = true then Model.sortObj d3 else d3) := by
+  unfold Model.asJson2 blk
+  simp only [Option.bind_eq_bind, Option.pure_def]
+  congr 1
+  funext d1
+  by_cases h1 : (!minimal || o.temporal.isSome) = true <;>
+    by_cases h2 : (!minimal || o.env.isSome) = true <;>
+    simp only [h1, h2, if_true, if_false, Option.bind_some, Option.bind_assoc, Bool.false_eq_true]
+
+theorem req_some {α : Type} (x : α) : Py.req (some x) = .ok x := rfl
+
+end Aux
+
+/-- `as_json(sort, minimal)` on a constructed object, all four option sets: same keys, same values, same
+    order (or both raise) -/
+theorem as_json_eq (self : Code2.Self) (o : Model.V2.Obj) (sort minimal : Bool)
+    (hv : o.vector = self.vector) (hm : o.metrics = self.metrics) (hb : self.base_score = some o.base)
+    (ht : self.temporal_score = o.temporal) (he : self.environmental_score = o.env) :
+    (Code2.as_json self sort minimal).toOption =
+      (Model.asJson2 o sort minimal).map (List.map (fun kv => (kv.1, jOf kv.2))) := by
+  rw [Aux.as_json_unf, hb, Aux.asJson2_alt, ← ht, ← he, hv, hm]
+  show _ = Option.map Aux.jm _
+  rw [Aux.to_bind, Aux.req_some, Aux.to_ok, Option.bind_some, Aux.to_bind]
+  have h0 : ([(c!"version", (Py.J.str c!"2.0")), (c!"vectorString", (Py.J.str self.vector)),
+        (c!"baseScore", (Py.J.num o.base))] : List (Str × Py.J)) =
+      Aux.jm [(c!"version", .str c!"2.0"), (c!"vectorString", .str self.vector), (c!"baseScore", .num o.base)] := rfl
+  rw [h0, Aux.json_fold]
+  generalize Model.addMetrics Gen.V2.jsonKeys (Model.V2.getDescription self.metrics) Model.us2
+    [(c!"version", .str c!"2.0"), (c!"vectorString", .str self.vector), (c!"baseScore", .num o.base)]
+    Gen.V2.mandatory = r1
+  cases r1 with
+  | none => rfl
+  | some d1 =>
+    simp only [Option.map_some, Option.bind_some]
+    rw [Aux.to_bind, Aux.block_eq]
+    generalize Aux.blk self.metrics minimal self.temporal_score Gen.V2.temporal c!"temporalScore" d1 = r2
+    cases r2 with
+    | none => rfl
+    | some d2 =>
+      simp only [Option.map_some, Option.bind_some]
+      rw [Aux.to_bind, Aux.block_eq]
+      generalize Aux.blk self.metrics minimal self.environmental_score Gen.V2.environmental
+        c!"environmentalScore" d2 = r3
+      cases r3 with
+      | none => rfl
+      | some d3 =>
+        simp only [Option.map_some, Option.bind_some]
+        cases sort
+        · rfl
+        · simp only [if_true, Aux.to_pure, Aux.sortedItems_jm]
 
 end Cvss.Props.CodeTie2
